@@ -16,7 +16,7 @@ use std::time::Duration;
 
 pub const GRID: [(&str, &[&str]); 8] = [
     ("car-nested-list", &["read", "quote-evaluate", "build", "collect", "equal", "write", "drop"]),
-    ("cdr-nested-list", &["read", "quote-evaluate", "build", "collect", "equal", "write", "drop", "append", "reverse", "length", "list->vector", "map", "apply", "member", "list-tail"]),
+    ("cdr-nested-list", &["read", "quote-evaluate", "build", "collect", "equal", "write", "drop", "append", "reverse", "length", "list->vector", "map", "apply", "member", "list-tail", "dotted-tail"]),
     ("nested-vectors", &["read", "quote-evaluate", "build", "collect", "equal", "write", "drop"]),
     ("quote-chain", &["read", "quote-evaluate", "build", "collect", "equal", "write", "drop"]),
     ("closure-chain", &["build", "collect", "call", "drop"]),
@@ -144,6 +144,19 @@ fn scenario(dir: &str, op: &str, n: usize) -> String {
                 let c = eval_all(&mut vm, &format!("(define kk #f) (define (dive n) (if (= n 0) (call/cc (lambda (k) (set! kk k) 0)) (+ 1 (dive (- n 1))))) (dive {}) (define again #t) (if again (begin (set! again #f) (kk 5)) 'done)", n))?;
                 vm.verif_force_gc();
                 Ok(short(&c))
+            }
+            ("cdr-nested-list", "dotted-tail") => {
+                // a flat list that ends in a dotted tail: read as text, and returned as the value of an evaluation
+                let mut t = text_for(dir, n);
+                t.pop();
+                t.push_str(". end)");
+                let (c, _) = parse::parse_text(&t).map_err(|e| e.to_string())?;
+                let s1 = short(&c);
+                std::mem::forget(c);
+                let c = eval_all(&mut vm, &format!("(let loop ((i 0) (acc 'end)) (if (< i {}) (loop (+ i 1) (cons i acc)) acc))", n))?;
+                let s2 = short(&c);
+                std::mem::forget(c);
+                Ok(format!("{} {}", s1, s2))
             }
             ("cdr-nested-list", "append" | "reverse" | "length" | "list->vector" | "map" | "apply" | "member" | "list-tail") => {
                 eval_all(&mut vm, &builder_for(dir, "d", n))?;
